@@ -343,6 +343,9 @@ func oracles(in []byte, pol0 byte, O func(what, exp, got string)) string {
 	if got, ok := elementOffsets(in); ok {
 		O("bios-element-offsets-consistent", "consistent", got)
 	}
+	if exp, got, ok := reparseVsProbe(in); ok {
+		O("reparse-expected-when-probe-clean", exp, got)
+	}
 	extractOracles(in, O)
 	if nb == ob {
 		return "ok:nothing-to-free"
